@@ -296,10 +296,10 @@ class OpTimeout(BaseException):
 
 
 def _on_alarm(signum, frame):
-    raise OpTimeout("operation still running after %ss" % OP_TIMEOUT_S)
+    raise OpTimeout("operation still running after %ss of CPU time" % OP_TIMEOUT_S)
 
 
-OP_TIMEOUT_S = 8.0
+OP_TIMEOUT_S = 8.0       # process CPU time (ITIMER_PROF), so machine load cannot trip it
 
 
 _alarm_installed = [False]
@@ -307,9 +307,9 @@ _alarm_installed = [False]
 
 def attempt(fn, *a):
     if not _alarm_installed[0]:
-        signal.signal(signal.SIGALRM, _on_alarm)
+        signal.signal(signal.SIGPROF, _on_alarm)
         _alarm_installed[0] = True
-    signal.setitimer(signal.ITIMER_REAL, OP_TIMEOUT_S, 0.25)
+    signal.setitimer(signal.ITIMER_PROF, OP_TIMEOUT_S, 0.25)
     try:
         return ("ok", fn(*a))
     except Exception as e:  # noqa: BLE001 - the exception *is* the observation
@@ -317,7 +317,7 @@ def attempt(fn, *a):
     except OpTimeout as e:
         return ("exc", e)
     finally:
-        signal.setitimer(signal.ITIMER_REAL, 0)
+        signal.setitimer(signal.ITIMER_PROF, 0)
 
 
 # ------------------------------------------------------------------ judging
